@@ -73,8 +73,8 @@ pub fn strategy(format: Option<Format>) -> BoxedStrategy<Case> {
         1 => ((16u32 << 20) - 4)..((16u32 << 20) + 70),
         1 => (12u32 << 20)..(18u32 << 20),
     ];
-    let cap = prop_oneof![3 => Just(65536usize), 2 => Just(3usize), 1 => 4usize..100, 1 => Just(1usize << 20), 1 => Just(8usize << 20), 1 => Just((8usize << 20) + 1)];
-    boxed((f, 0u8..4, 0u8..4, big, prop_oneof![Just(60u16), Just(70u16), Just(65535u16), 1u16..2000], any::<bool>(), cap, prop_oneof![Just(0u32), Just(1u32 << 16), Just(1000003u32)]).prop_map(
+    let cap = prop_oneof![3 => Just(65536usize), 2 => Just(3usize), 1 => 4usize..100, 1 => Just(1usize << 20), 1 => Just(8usize << 20), 1 => Just((8usize << 20) + 1), 1 => Just(12usize << 20), 1 => Just(20usize << 20)];
+    boxed((f, 0u8..4, 0u8..4, big, prop_oneof![Just(60u16), Just(70u16), Just(65535u16), 1u16..2000], any::<bool>(), cap, prop_oneof![Just(0u32), Just(65535u32), Just(4093u32)]).prop_map(
         |(format, before, after, big_len, line_width, crlf, cap, chunk)| Case {
             format,
             before,
@@ -89,7 +89,7 @@ pub fn strategy(format: Option<Format>) -> BoxedStrategy<Case> {
 }
 
 fn script(c: &Case) -> Script {
-    // chunk limits are u16 in the script: express large chunks as "everything", small ones as given
+    // chunk limits are u16 in the script (0 = the source satisfies every request in one call)
     Script { chunks: if c.chunk == 0 || c.chunk > 65535 { vec![] } else { vec![c.chunk as u16] }, ..Default::default() }
 }
 
@@ -111,7 +111,15 @@ impl Prop for HugeModel {
         crate::interp_livelock(&r.src, c.format)?;
         let grows = r.pol.borrow().len();
         ctx.class_n("growth requests", grows as u64);
-        compare(&m, &r.outs, false)
+        compare(&m, &r.outs, false)?;
+        // the same input with a buffer of tens of MiB from the start, filled through short reads (a pipe): every
+        // refill has many MiB of free room and needs hundreds of source calls
+        let cap2 = (20usize << 20) + c.before as usize * 4099;
+        let piped = Script { chunks: vec![if c.chunk == 0 { 65535 } else { c.chunk as u16 }], ..Default::default() };
+        let r2 = read_all(c.format, &doc, cap2, PolKind::Std, &piped, Mode::Next, m.recs.len() + 4);
+        crate::interp_livelock(&r2.src, c.format)?;
+        ctx.class("initial capacity of 20 MiB filled through short reads");
+        compare(&m, &r2.outs, false).map_err(|f| crate::engine::Failure::new(f.sig.replace("/read/", "/read-with-20MiB-buffer/"), f.msg))
     }
 }
 
@@ -133,7 +141,8 @@ impl Prop for HugeDiff {
         crate::interp_livelock(&a.src, c.format)?;
         let b = read_all(c.format, &doc, c.cap, PolKind::DoubleUntil(1 << 23), &Script::default(), Mode::Next, max);
         crate::interp_livelock(&b.src, c.format)?;
-        let big = read_all(c.format, &doc, 48 << 20, PolKind::RefuseAlways, &Script::default(), Mode::Next, max);
+        // (the large buffer is filled through the same short reads as run A: many source calls per refill)
+        let big = read_all(c.format, &doc, 48 << 20, PolKind::RefuseAlways, &script(c), Mode::Next, max);
         crate::interp_livelock(&big.src, c.format)?;
         for (name, other) in [("DoubleUntil(8 MiB)", &b), ("capacity 48 MiB, no growth allowed", &big)] {
             if a.outs != other.outs || a.pos != other.pos {
